@@ -403,8 +403,9 @@ def strategy(draw):
   kind = draw(st.sampled_from(['false', 'true', 'true', 'list', 'tuple', 'set', 'list']))
   listed = []
   if kind in ('list', 'tuple', 'set'):
-    listed = draw(st.lists(st.sampled_from(unknown + ['other_unknown']), unique=True, min_size=1,
-                           max_size=4))
+    # the list may also name configurables that are in fact known: they are still applied
+    listed = draw(st.lists(st.sampled_from(unknown + unknown + ['other_unknown'] + known),
+                           unique=True, min_size=1, max_size=5))
   refnames = known[:3] + unknown
   lit = literals.simple_value()
 
